@@ -305,6 +305,30 @@ func (r *c23Recorder) DeleteRange(s, e []byte) error {
 	return nil
 }
 
+// c23Call2 / c23Call1 hand the operation buffers the caller owns and overwrite them right after the call returns, as a
+// caller re-using its key / value slices does: a store or batch that keeps a reference instead of a copy then commits
+// (or replays) something else than it was given.
+func c23Call2(f func(k, v []byte) error, k, v string) error {
+	kb, vb := []byte(k), []byte(v)
+	err := f(kb, vb)
+	for i := range kb {
+		kb[i] ^= 0x5a
+	}
+	for i := range vb {
+		vb[i] ^= 0x5a
+	}
+	return err
+}
+
+func c23Call1(f func(k []byte) error, k string) error {
+	kb := []byte(k)
+	err := f(kb)
+	for i := range kb {
+		kb[i] ^= 0x5a
+	}
+	return err
+}
+
 func c23Bytes(s string, isNil bool) []byte {
 	if isNil {
 		return nil
@@ -352,12 +376,12 @@ func (s *c23Sys) Apply(op int) error {
 		var err error
 		switch o.kind {
 		case "put":
-			err = b.db.Put([]byte(o.k), []byte(o.v))
+			err = c23Call2(b.db.Put, o.k, o.v)
 			if b.alt != nil {
 				b.alt.store[o.k] = o.v
 			}
 		case "del":
-			err = b.db.Delete([]byte(o.k))
+			err = c23Call1(b.db.Delete, o.k)
 			if b.alt != nil {
 				delete(b.alt.store, o.k)
 			}
@@ -372,12 +396,12 @@ func (s *c23Sys) Apply(op int) error {
 			}
 			switch o.kind {
 			case "bput":
-				err = b.batch.Put([]byte(o.k), []byte(o.v))
+				err = c23Call2(b.batch.Put, o.k, o.v)
 				if b.alt != nil {
 					b.alt.batch = append(b.alt.batch, c23Bop{kind: "put", k: o.k, v: o.v})
 				}
 			case "bdel":
-				err = b.batch.Delete([]byte(o.k))
+				err = c23Call1(b.batch.Delete, o.k)
 				if b.alt != nil {
 					b.alt.batch = append(b.alt.batch, c23Bop{kind: "del", k: o.k})
 				}
